@@ -83,7 +83,7 @@ def startsWalk (c : Cfg) (p : Path) (i : Info) (kids : Forest) (m : Mode) : Bool
 /-- one entry: (versioned flag afterwards, mode of its content) -/
 def step (c : Cfg) (p : Path) (m : Mode) (i : Info) (kids : Forest) : Bool × Mode :=
   let v1 := i.versioned || onPath c p i
-  if startsWalk c p i m then (visitFlag c i kids v1, visitKids c i kids)
+  if startsWalk c p i kids m then (visitFlag c i kids v1, visitKids c i kids)
   else match m with
     | .walk => if listed c p i v1 then (visitFlag c i kids v1, visitKids c i kids) else (v1, .dead)
     | .idle => (v1, .idle)
@@ -125,10 +125,10 @@ def versionedPaths : Forest → List Path
 
 /-! ### specification side: which entries the walk reaches -/
 
-/-- the mode in which the *content* of the entry at `q` is processed, and
-whether the entry itself is taken from the work list, computed along the path
-(this is `step` iterated; it is what `pass_exact` relates the result to) -/
-def modeBelow (c : Cfg) (here : Path) (m : Mode) : Forest → Path → Option (Bool × Mode)
+/-- the mode in which the directory listing that contains the entry `q` is
+processed: the mode of the top listing handed down through `step` along the
+path (this is what `add_exact` relates the result to) -/
+def modeOf (c : Cfg) (here : Path) (m : Mode) : Forest → Path → Option Mode
   | .nil, _ => none
   | .cons i kids rest, q =>
     match q with
@@ -136,8 +136,13 @@ def modeBelow (c : Cfg) (here : Path) (m : Mode) : Forest → Path → Option (B
     | n :: t =>
       if i.name = n then
         (match t with
-         | [] => some (step c (here ++ [i.name]) m i kids)
-         | _ :: _ => modeBelow c (here ++ [i.name]) (step c (here ++ [i.name]) m i kids).2 kids t)
-      else modeBelow c here m rest q
+         | [] => some m
+         | _ :: _ => modeOf c (here ++ [i.name]) (step c (here ++ [i.name]) m i kids).2 kids t)
+      else modeOf c here m rest q
+
+/-- forget the versioned flags (everything else a layout consists of) -/
+def clearV : Forest → Forest
+  | .nil => .nil
+  | .cons i kids rest => .cons { i with versioned := false } (clearV kids) (clearV rest)
 
 end BreezyVerif.C11
